@@ -407,6 +407,8 @@ package route
 //@   ensures treeWF()
 //@   ensures result1 == nil ==> result0 != nil && fresh(result0)
 //@   ensures result1 == nil ==> leafBase(result0).parent == parent && leafBase(result0).segment == s && leafBase(result0).route == r && leafBase(result0).headerMatcher == nil
+// a match-all (and a placeholder) is the whole segment: nothing next to it that the match would ignore
+//@   ensures[C08,C02,C01] result1 == nil && (leafStyle(result0) == 4 || leafStyle(result0) == 3) ==> len(s.Elements) == 1
 //@   ensures result1 != nil ==> result0 == nil
 //@   loop 0 invariant treeWF() && parentBindSet != nil && fresh(parentBindSet)
 //@   loop 0 invariant forall a int, b int :: 0 <= a && a < b && b <= rangeindex ==> binds[a] != binds[b]
@@ -424,6 +426,7 @@ package route
 //@   ensures treeWF()
 //@   ensures len(s.Elements) == 0 ==> result1 != nil
 //@   ensures result1 == nil && style(result0) == 4 ==> !old(allAnc(parent))
+//@   ensures[C08,C02,C01] result1 == nil && (style(result0) == 4 || style(result0) == 3) ==> len(s.Elements) == 1
 //@   ensures result1 == nil ==> isTreeChild(result0) && fresh(result0)
 //@   ensures result1 == nil ==> nodeOf(result0).parent == parent && nodeOf(result0).segment == s && len(nodeOf(result0).subtrees) == 0 && len(nodeOf(result0).leaves) == 0
 //@   ensures result1 != nil ==> result0 == nil
